@@ -96,6 +96,18 @@ def dump_code(co, opc, version, api=None):
                 av = canon(av)
             ins.append([i.offset, i.opcode, i.opname, i.arg, av, bool(i.is_jump_target), i.starts_line])
         ent["instrs"] = ins
+        if api is None:
+            # iterating the same Bytecode object again (fully, and after an abandoned partial pass)
+            # must yield the same stream: "iterating its instructions" is not a one-shot affair
+            first = [[x[0], x[1], x[3]] for x in ins]
+            again = [[i.offset, i.opcode, i.arg] for i in bc]
+            it = iter(bc)
+            next(it, None)
+            next(it, None)
+            third = [[i.offset, i.opcode, i.arg] for i in bc]
+            if again != first or third != first:
+                ent["reiter"] = {"first": len(first), "second": len(again), "third": len(third),
+                                 "third_first_offset": third[0][0] if third else None}
         ent["exc"] = None if bc.exception_entries is None else [[e.start, e.end, e.target, e.depth, bool(e.lasti)] for e in bc.exception_entries]
     except Exception as e:  # noqa
         ent["instrs_err"] = type(e).__name__ + ":" + str(e)[:100]
